@@ -141,6 +141,12 @@ def tree_contracts(r, lib):
                     r.ob("R16.2.lookup-scans-all-children", b.name, full, "the lookup scans the whole children list" if full else
                          "the lookup does not scan self.children as a whole (adapters: %s): some children cannot be found" % [a.split("::")[-1] for a in bad], site=cs,
                          key="R16.2|fullscan|%s" % b.name)
+                f0 = lib.fns.get(b0.name, {})
+                is_lookup_method = len(f0.get("inputs", [])) == 2 and f0.get("impl_self", {}).get("adt") == "element::Element" and \
+                    f0["inputs"][1].get("refs", 0) >= 1 and f0["inputs"][1].get("adt") != "element::Element" and f0.get("output", {}).get("adt") == "std::option::Option"
+                if over_children and clo and not is_lookup_method and b is not b0:
+                    # a lookup helper inlined into a method that is not a (self, name) lookup itself: judged in the helper's own body
+                    continue
                 if over_children and clo:
                     ok, why = name_only_closure(lib, clo)
                     cap = strip(term_of(b, cs.node["args"][1]))
@@ -184,9 +190,11 @@ def tree_contracts(r, lib):
     # R16.1 insertions
     name_only_fns = {n for n, v in lookups.items() if v}
     n_ins = 0
+    from .. import desugar
     for b in lib.real_bodies():
-        if "std::clone::Clone" in b.name:
+        if "std::clone::Clone" in b.name or b.kind == "closure":
             continue
+        b = desugar.desugar(lib, b)      # Option combinators / closures made explicit; helpers stay calls (they are insertion sites)
         for cs in b.calls():
             if not cs.node["args"]:
                 continue
@@ -203,6 +211,10 @@ def tree_contracts(r, lib):
             who = strip(term_of(b, a0))[1]
             val = strip(term_of(b, cs.node["args"][1])) if len(cs.node["args"]) > 1 else ("none",)
             child = strip(list(val[3].values())[0]) if val[0] == "agg" and val[1] == "necessity::Necessity" else val
+            from .common import update_base
+            ub = update_base(child)
+            if ub is not None and "name" not in ub[1]:
+                child = ub[0]       # `Element { position: .., ..child }` is still that child (same name, same subtree)
             # (b) re-insertion of the removed value
             org = b.origins(cs.node["args"][1], transparent=lambda n: cname(n) in ("necessity::Necessity::into_inner_t",))
             removed = [o for o in org if o[0] == "call" and cname(o[1].node).endswith("Element::remove_child")]
@@ -287,6 +299,7 @@ def tree_contracts(r, lib):
     # R16.3 mark-optional preserves the value
     for b in lib.real_bodies():
         if b.name.endswith("::set_child_optional"):
+            b = desugar.desugar(lib, b)
             ins = [c for c in b.calls() if c.node["args"] and is_mut_ref(arg_ty(b, c.node["args"][0])) and _is_children_of(term_of(b, c.node["args"][0]))]
             ok = len(ins) == 1
             if ok:
@@ -301,6 +314,8 @@ def tree_contracts(r, lib):
                  "set_child_optional does not re-insert exactly the removed value", site=ins[0] if ins else mir.line_of(b.span), key="R16.3|preserve")
     _insertion_contracts(r, lib, name_only_fns)
     _equality_contracts(r, lib)
+    _merge_attr_contract(r, lib)
+    _accessor_contracts(r, lib)
 
 
 def _insertion_contracts(r, lib, name_only_fns):
@@ -312,7 +327,7 @@ def _insertion_contracts(r, lib, name_only_fns):
         short = b0.name.rsplit("::", 1)[-1]
         if short not in ("add_unique_child", "set_child_optional") or lib.fns.get(b0.name, {}).get("impl_self", {}).get("adt") != "element::Element":
             continue
-        b = normal_form(lib, b0)
+        b = normal_form(lib, b0, also=lambda cb, t: cb.name not in name_only_fns)    # lookups stay calls: they are the guards
         ins = [cs for cs in b.calls() if cs.node["args"] and method(cs.node) in GROW and is_mut_ref(arg_ty(b, cs.node["args"][0])) and
                _is_children_of(term_of(b, cs.node["args"][0]), ("arg", 1))]
         if len(ins) != 1:
@@ -345,7 +360,12 @@ def _insertion_contracts(r, lib, name_only_fns):
              ("a child whose name is absent is always appended at the end" if short == "add_unique_child" else "a found child is always re-inserted") if ok else
              "the append to self.children (%s) also depends on %s%s" % (method(cs.node), extra, "" if has_main else " and not on the name lookup"), site=cs, key="R16.1d|%s" % short)
         if short == "add_unique_child":
-            okv = val[0] == "agg" and val[1] == "necessity::Necessity" and val[2] == "Mandatory" and strip(list(val[3].values())[0]) == ("arg", 2)
+            payload = strip(list(val[3].values())[0]) if val[0] == "agg" and val[1] == "necessity::Necessity" and val[3] else ("x",)
+            from .common import update_base
+            ub = update_base(payload)
+            if ub is not None and ub[1] <= {"position"}:
+                payload = ub[0]     # the child with only its position filled in
+            okv = val[0] == "agg" and val[1] == "necessity::Necessity" and val[2] == "Mandatory" and payload == ("arg", 2)
             r.ob("R16.5.added-child-is-mandatory", b0.name, okv, "the new child is stored as Mandatory(child)" if okv else "the new child is stored as %s" % term_s(val)[:60], site=cs,
                  key="R16.5|mandatory")
 
@@ -417,3 +437,117 @@ def _equality_contracts(r, lib):
             found += 1
             _true_requires(r, "R16.8.necessity-equality-implies-equal-payload", b, pair(lambda t, _b=b: payload_of_arg(t, _b)), "the wrapped values are equal", "R16.8|eq")
     r.ob("R16.7.equality-inventory", "library", found == 2, "PartialEq impls of Element and Necessity inspected: %d" % found, key="R16.7|inventory")
+
+
+def _merge_attr_contract(r, lib):
+    """R16.9: merging an attribute list = storing merge(self.attributes, new list), always (no fast path, no other
+    writer): the only operation through which attribute necessity changes is the public list merge (C15 table)"""
+    from .common import element_update, look_through_private
+    for b0 in lib.real_bodies():
+        if not b0.name.endswith("::merge_attr") or lib.fns.get(b0.name, {}).get("impl_self", {}).get("adt") != "element::Element":
+            continue
+        b = look_through_private(lib, b0, also=lambda cb, t: not cb.name.endswith("merge_necessity"))
+        writes = []
+        for s_ in b.assigns():
+            pl = b.canon(s_.node["place"])
+            fs = mir.place_fields(pl)
+            if fs and fs[-1] == ("element::Element", "attributes") and s_.node["rv"]["k"] == "use":
+                writes.append((s_, s_.node["rv"]["op"]))
+            upd = element_update(b, s_)
+            if upd and "attributes" in upd:
+                writes.append((s_, upd["attributes"]))
+        ok = len(writes) == 1
+        why = "%d writes of the attribute list in merge_attr" % len(writes)
+        if ok:
+            s_, op = writes[0]
+            t = strip(term_of(b, op))
+            okv = t[0] == "call" and t[1].endswith("merge_necessity") and len(t[2]) == 2
+            if okv:
+                a0, a1 = strip(t[2][0]), strip(t[2][1])
+                okv = a0[0] == "proj" and a0[1] == ("arg", 1) and [e[3] for e in a0[2] if e != "*" and e[0] == "f"] == ["attributes"] and a1 == ("arg", 2)
+            g = [guard_s(x) for x in guards_of(b, s_.bb)]
+            ok = okv and not g
+            why = "attributes = merge(self.attributes, given list), unconditionally" if ok else \
+                "the stored attribute list is %s%s, not always merge(self.attributes, given list)" % (term_s(t)[:60], " under %s" % g if g else "")
+        r.ob("R16.9.merge-attr-is-the-list-merge", b0.name, ok, why, site=writes[0][0] if writes else mir.line_of(b0.span), key="R16.9|merge_attr")
+
+
+def _accessor_contracts(r, lib):
+    """R16.10: the small accessors and mutators the mechanism rules refer to by name do what their names say:
+    standalone()/count()/children() return that field, set_multiple() clears standalone and increment() adds one to
+    count on every path, Necessity::inner_t/inner_t_mut/into_inner_t return the payload of whichever variant"""
+    def method_of(adt, name):
+        return [b for b in lib.real_bodies() if b.kind != "closure" and b.name.rsplit("::", 1)[-1] == name and
+                lib.fns.get(b.name, {}).get("impl_self", {}).get("adt") == adt]
+
+    def result_terms(b):
+        out = []
+        for s_ in b.sites():
+            n = s_.node
+            if s_.si is not None and n["k"] == "assign" and n["place"]["l"] == 0 and not n["place"]["p"]:
+                rv = n["rv"]
+                if rv["k"] == "use":
+                    out.append(strip(term_of(b, rv["op"])))
+                elif rv["k"] in ("ref", "rawptr"):
+                    out.append(strip(term_of(b, rv["place"])))
+                else:
+                    out.append(("rv", rv["k"]))
+            elif s_.si is None and n["k"] == "call" and n["dest"]["l"] == 0:
+                out.append(("call", cname(n), [term_of(b, a) for a in n["args"]], s_))
+        return out
+
+    def is_self_field(t, field):
+        return t[0] == "proj" and t[1] == ("arg", 1) and [e[3] for e in t[2] if e != "*" and e[0] == "f"] == [field]
+
+    n = 0
+    for name, field in (("standalone", "standalone"), ("count", "count"), ("children", "children")):
+        for b in method_of("element::Element", name):
+            n += 1
+            rs = result_terms(b)
+            ok = bool(rs) and all(is_self_field(t, field) for t in rs)
+            r.ob("R16.10.accessor-returns-its-field", b.name, ok, "returns self.%s" % field if ok else "does not simply return self.%s: %s" % (field, [term_s(t)[:40] for t in rs]),
+                 site=mir.line_of(b.span), key="R16.10|get|%s" % name)
+    for name, field, want in (("set_multiple", "standalone", "false"), ("increment", "count", "+1")):
+        for b in method_of("element::Element", name):
+            n += 1
+            good, other = set(), []
+            for s_ in b.assigns():
+                pl = b.canon(s_.node["place"])
+                fs = mir.place_fields(pl)
+                if not fs or fs[-1][0] != "element::Element":
+                    continue
+                t = strip(term_of(b, s_.node["rv"]["op"])) if s_.node["rv"]["k"] == "use" else ("rv",)
+                if fs[-1][1] == field and pl["l"] == 1 and (
+                        (want == "false" and t == ("const", False)) or
+                        (want == "+1" and t[0] == "binop" and t[1] == "Add" and is_self_field(strip(t[2]), field) and strip(t[3]) == ("const", 1))):
+                    good.add(s_.bb)
+                else:
+                    other.append(fs[-1][1])
+            free = b.reach_from(0, avoid=good)
+            ok = bool(good) and not (set(b.return_blocks()) & free) and not other
+            r.ob("R16.10.mutator-effect", b.name, ok, "on every path self.%s %s, nothing else is written" % (field, "is set to false" if want == "false" else "grows by one") if ok else
+                 "does not always %s (other fields written: %s)" % ("clear self.standalone" if want == "false" else "add one to self.count", other), site=mir.line_of(b.span), key="R16.10|set|%s" % name)
+    for name in ("inner_t", "inner_t_mut", "into_inner_t"):
+        for b in method_of("necessity::Necessity", name):
+            n += 1
+            rs = []
+            for t in result_terms(b):
+                if t[0] == "local":
+                    alts = mir._alternatives(b, t[1], 0, True, frozenset())
+                    rs += [strip(a) for a in alts] if alts else [t]
+                else:
+                    rs.append(t)
+            variants = set()
+            ok = bool(rs)
+            for t in rs:
+                if t[0] == "proj" and t[1] == ("arg", 1):
+                    dc = [e[1] for e in t[2] if e != "*" and e[0] == "dc"]
+                    fl = [e for e in t[2] if e != "*" and e[0] == "f"]
+                    if len(dc) == 1 and len(fl) == 1 and fl[0][1] == "necessity::Necessity":
+                        variants.add(dc[0])
+                        continue
+                ok = False
+            ok = ok and variants == {"Optional", "Mandatory"}
+            r.ob("R16.10.payload-accessor", b.name, ok, "returns the wrapped value of either variant" if ok else "does not return the payload of both variants (%s)" % sorted(variants),
+                 site=mir.line_of(b.span), key="R16.10|payload|%s" % name)
+    r.ob("R16.10.accessor-inventory", "library", n >= 8, "%d accessor/mutator bodies checked" % n, key="R16.10|inventory")
